@@ -133,6 +133,9 @@ where
         // result arriving between our check and the wait below would otherwise never wake us up.
         let notified = self.ready_signal.notified();
 
+        #[cfg(p2panda_p2panda_verif)]
+        p2panda_core::verif::point("task.ready.after_create").await;
+
         // Check if an result already exists and return it directly.
         {
             let ready_result = self.ready_result.lock().await;
